@@ -302,7 +302,7 @@ func TestReplay(t *testing.T) {
 }
 
 func TestPlannedVsLiteral(t *testing.T) {
-	pbt.Check(t, 4000, 150000, func(rt *rapid.T) {
+	pbt.Check(t, 4000, 60000, func(rt *rapid.T) {
 		g := gen.Graph(rt, 6, 10)
 		steps := gen.Traversal(rt, gen.TravOpts{MaxLen: 8, FilterBias: true, NoOrder: rapid.IntRange(0, 9).Draw(rt, "noOrder") < 8})
 		arr := gen.Arrival(rt, g)
@@ -350,7 +350,7 @@ func idSpellings(x string) []model.Step {
 }
 
 func TestSpellings(t *testing.T) {
-	pbt.Check(t, 1500, 100000, func(rt *rapid.T) {
+	pbt.Check(t, 1500, 40000, func(rt *rapid.T) {
 		g := gen.Graph(rt, 6, 10)
 		start := rapid.SampledFrom([]string{"V", "V", "E"}).Draw(rt, "start")
 		var sp []model.Step
